@@ -209,6 +209,19 @@ func c02GenCase(rt *rapid.T) c02Case {
 		}
 		all = append(all, n)
 	}
+	// sometimes a long symlink chain: the kernel follows at most 40 links per resolution
+	chain := 0
+	if rapid.IntRange(0, 5).Draw(rt, "chain") == 0 {
+		chain = rapid.SampledFrom([]int{38, 39, 40, 41}).Draw(rt, "chainlen")
+		all = append(all, c02Node{Path: "chainend", Kind: "file"})
+		for i := 0; i < chain; i++ {
+			t := fmt.Sprintf("ch%d", i+1)
+			if i == chain-1 {
+				t = "chainend"
+			}
+			all = append(all, c02Node{Path: fmt.Sprintf("ch%d", i), Kind: "link", Target: t})
+		}
+	}
 	c.Nodes = all
 	m := newC02Model(all)
 
@@ -271,6 +284,12 @@ func c02GenCase(rt *rapid.T) c02Case {
 	slots := map[int]string{} // slot -> model dir (or file path for openfile)
 	slotIsFile := map[int]bool{}
 	nops := rapid.IntRange(4, 16).Draw(rt, "nops")
+	if chain > 0 {
+		// calls that walk the whole chain, absolute and relative
+		c.Ops = append(c.Ops, c02Op{Kind: "call", Sys: "open", D1: c02Dirfd{Enc: "cwd-100"}, P1: "{R}/ch0", Flags: 1, Place: "plain"})
+		c.Ops = append(c.Ops, c02Op{Kind: "call", Sys: "stat", D1: c02Dirfd{Enc: "cwd-100"}, P1: "ch0", Place: "plain"})
+		c.Ops = append(c.Ops, c02Op{Kind: "call", Sys: "openat", D1: c02Dirfd{Enc: "cwd-zext"}, P1: "ch1", Flags: 0, Place: "plain"})
+	}
 	for i := 0; i < nops; i++ {
 		k := rapid.IntRange(0, 19).Draw(rt, "opk")
 		switch {
